@@ -128,13 +128,25 @@ def check_mapping(s3, pairs2d, find_gaps, via_adapter, info):
     from rnapolis.tertiary import Mapping2D3D
 
     out = []
+    # the library enumerates every ordering of every group of crossing stems (k! per group) for all_dot_brackets: asked
+    # only where that stays below 50 000 orderings (structures whose helices were broken up by bare bases or abasic
+    # sites exceed it by far). The BPSEQ of a probe mapping tells (building it enumerates nothing).
+    probe = Mapping2D3D(s3, pairs2d, [], find_gaps).bpseq
+    _pp = [(e.index_, e.pair) for e in probe.entries if e.pair > e.index_]
+    _comps = ssref.describe("N" * len(probe.entries), _pp)[2]
+    _cost = 1
+    for _c in _comps:
+        _cost *= math.factorial(len(_c))
+    ask_all = _cost <= 50000
+    if not ask_all:
+        info["all_dot_brackets_not_asked"] = True
     if via_adapter:
         from rnapolis.adapter import extract_secondary_structure_from_external
 
-        s2, dbs, mapping = extract_secondary_structure_from_external(s3, BaseInteractions(pairs2d, [], [], [], []), None, find_gaps, True)
+        s2, dbs, mapping = extract_secondary_structure_from_external(s3, BaseInteractions(pairs2d, [], [], [], []), None, find_gaps, ask_all)
         if s2.bpseq != str(mapping.bpseq) or s2.dotBracket != mapping.dot_bracket or s2.extendedDotBracket != mapping.extended_dot_bracket:
             out.append(D("C06:adapter:structure2d-differs-from-mapping", "Structure2D texts differ from the Mapping2D3D they were built from"))
-        if dbs != mapping.all_dot_brackets:
+        if not info.get("all_dot_brackets_not_asked") and dbs != mapping.all_dot_brackets:
             out.append(D("C06:adapter:all-dot-brackets-differ", "returned list differs from mapping.all_dot_brackets"))
     else:
         mapping = Mapping2D3D(s3, pairs2d, [], find_gaps)
@@ -253,8 +265,12 @@ def check_mapping(s3, pairs2d, find_gaps, via_adapter, info):
             out.append(D(f"C06:{tag}:pairs-differ-from-bpseq", f"text encodes {dec[:4]}..., BPSEQ has {bp_pairs[:4]}..."))
 
     check_text("dot_bracket", mapping.dot_bracket)
-    alls = mapping.all_dot_brackets
-    if not alls:
+    # the library enumerates every ordering of every group of crossing stems (k! per group): asked only where that stays
+    # below 50 000 orderings (structures whose helices were broken up by bare bases or abasic sites can exceed it by far)
+    alls = mapping.all_dot_brackets if ask_all else []
+    if not ask_all:
+        pass
+    elif not alls:
         out.append(D("C06:all_dot_brackets:empty", "no member"))
     else:
         # the mapped list is the BpSeq's list, member by member (C16 decides what that list must contain)
@@ -379,6 +395,8 @@ def relabelled(s3, rel):
     # ... or to backbone + sugar under a component name of their own (an abasic site such as 3DR): a nucleotide by its
     # atoms, with the one-letter name '?' - it has a BPSEQ line and a place in its strand, both spelt '?'
     abasic = {t % n for t in rel.get("abasic", [])} - trunc - bare
+    if n > 200:
+        abasic = set()  # structures of up to 200 residues only: on larger ones the library's enumeration of all notations runs for minutes once abasic sites break its helices
 
     def ak(ri, k):
         name = s3.residues[ri].atoms[k].name
